@@ -126,6 +126,29 @@ def parse (bs : Nat) (csum : Bool) (tail : Bytes → Bytes) (b : Bytes) : Option
   | none => none
   | some b' => walk b'.length b'
 
+/-! ### Remove's write-back of the parent directory (filesystem/ext4/ext4.go Remove) -/
+
+/-- the unused entry `directoryEntry{}` -/
+def emp : Entry := ⟨0, [], 0⟩
+
+/-- an empty directory block: one unused entry spanning the block (and the checksum tail) -/
+def emptyBlock (bs : Nat) (csum : Bool) (tail : Bytes → Bytes) : Bytes :=
+  fin csum tail (encEntry emp ((bs - (if csum then 12 else 0)) % 65536))
+
+/-- `for len(dirBytes) < allocated { dirBytes = append(dirBytes, empty...) }` -/
+def padDir (bs : Nat) (csum : Bool) (tail : Bytes → Bytes) : (fuel : Nat) → (alloc : Nat) → Bytes → Bytes
+  | 0, _, b => b
+  | fuel + 1, alloc, b =>
+    if b.length < alloc then padDir bs csum tail fuel alloc (b ++ emptyBlock bs csum tail) else b
+
+/-- the directory's blocks after Remove re-packed the remaining entries `es` and wrote them back over the blocks
+    `old`. `pad = false` is the code as found: only the blocks the re-packed bytes cover are written, the others
+    keep what they held (finding ext4-remove-stale-dir-block); `pad = true`: the others become empty blocks. -/
+def rewriteDir (pad : Bool) (bs : Nat) (csum : Bool) (tail : Bytes → Bytes) (old : Bytes) (es : List Entry) : Bytes :=
+  let packed := pack bs csum tail es
+  let b := if pad then padDir bs csum tail old.length old.length packed else packed
+  (b ++ old.drop b.length).take old.length
+
 /-- the rec_len chain of a byte string: `none` unless the records tile it exactly -/
 def chain : Nat → Bytes → Option (List Nat)
   | _, [] => some []
